@@ -1187,6 +1187,27 @@ func (w *World) applyHop(op Op) *Violation {
 	}
 	w.Cfg.InitVer = 0
 	w.newTree()
+	if op.Read == "preused" {
+		// the receiving handle has been written to before the import (nothing saved, and empty again): Import accepts it,
+		// and nothing of that use may survive the import
+		for i, kv := range sortedKVs(vs.KV) {
+			if i >= 3 {
+				break
+			}
+			if _, err := w.Tree.Set(cp(kv.K), []byte("pre-import")); err != nil {
+				return w.viol("hop.preuse", "Set before the import: %v", err)
+			}
+		}
+		for i, kv := range sortedKVs(vs.KV) {
+			if i >= 3 {
+				break
+			}
+			if _, _, err := w.Tree.Remove(cp(kv.K)); err != nil {
+				return w.viol("hop.preuse", "Remove before the import: %v", err)
+			}
+		}
+		w.Labels["import_into_a_handle_that_was_written_to_and_emptied_again"] = true
+	}
 	if vs.Root != nil {
 		if err := ImportAll(w.Tree, n, nodes, op.Flag); err != nil {
 			return w.viol("hop.import", "import of version %d (%d nodes): %v", n, len(nodes), err)
